@@ -79,6 +79,62 @@ def strip_copy(f: Func, e: ast.AST) -> tuple[ast.AST, bool]:
     return e0, False
 
 
+# --------------------------------------------------------------------------- call arguments / signature defaults
+
+
+def signature_default(callee: Func, param: str):
+    """-> (declared?, default expression | None) of parameter `param` in the callee's signature."""
+    a = callee.node.args
+    pos = list(a.posonlyargs) + list(a.args)
+    first_default = len(pos) - len(a.defaults)
+    for i, p in enumerate(pos):
+        if p.arg == param:
+            return True, (a.defaults[i - first_default] if i >= first_default else None)
+    for p, d in zip(a.kwonlyargs, a.kw_defaults):
+        if p.arg == param:
+            return True, d
+    return False, None
+
+
+def effective_arg(callee: Func, call: ast.Call, param: str, bound: bool = True):
+    """What parameter `param` of `callee` receives at `call`: -> (expr | None, how) with how in
+    'explicit' (argument written at the call site), 'default' (argument omitted: the callee's signature
+    default decides -- the caller *relies on that default*), 'missing' (omitted and no default / unknown
+    parameter), 'dynamic' (`*args` / `**kwargs` at the call site hide it).  `bound` = the call is a bound
+    method call (`self` / `cls` is not among the positional arguments)."""
+    a = callee.node.args
+    for k in call.keywords:
+        if k.arg == param:
+            return k.value, "explicit"
+    pos = [p.arg for p in list(a.posonlyargs) + list(a.args)]
+    is_static = any(unparse(d) == "staticmethod" for d in callee.node.decorator_list)
+    if bound and callee.cls is not None and not is_static and pos:
+        pos = pos[1:]
+    if param in pos:
+        i = pos.index(param)
+        if any(isinstance(x, ast.Starred) for x in call.args[: i + 1]):
+            return None, "dynamic"
+        if i < len(call.args):
+            return call.args[i], "explicit"
+    if any(k.arg is None for k in call.keywords) or any(isinstance(x, ast.Starred) for x in call.args):
+        return None, "dynamic"
+    declared, d = signature_default(callee, param)
+    if declared and d is not None:
+        return d, "default"
+    return None, "missing"
+
+
+def const_of(f: Func | None, e: ast.AST | None):
+    """-> (is constant?, value) of an argument / default expression (a caller's temporary is followed)."""
+    if e is None:
+        return False, None
+    if f is not None:
+        e = deref(f, e)
+    if isinstance(e, ast.Constant):
+        return True, e.value
+    return False, None
+
+
 # --------------------------------------------------------------------------- CFG helpers
 
 
